@@ -428,7 +428,7 @@ class C20(Check):
 
     # -- replay / shrink ---------------------------------------------------------------------
     def replay(self, case):
-        with jitlab.JitLab(time_limit=600) as lab:
+        with jitlab.shared() as lab:
             fails, info = judge(lab, case)
         if not fails:
             return None
@@ -442,7 +442,7 @@ class C20(Check):
         """Inputs towards zero while the bucket is kept (programs themselves are compiler output)."""
         case = dict(failure.case)
         best = failure
-        with jitlab.JitLab(time_limit=600 if tier == "thorough" else 300) as lab:
+        with jitlab.shared() as lab:
             for field, val in (("arr", [0] * 8), ("args", [0, 0, 0]), ("bps", [])):
                 if case.get(field) in (val, None):
                     continue
